@@ -25,6 +25,8 @@ type Alpha struct {
 	MaxPrunes    int   // max number of successful-or-not DeleteVersionsTo calls (0 = unlimited)
 	Reads        bool  // read-only deviations (bounded by Spec.MaxReads)
 	Import       bool  // export/import of a retained version (plain and compressed)
+	ReadAll      bool  // one macro read-only operation that reads everything (warms node and fast caches)
+	Exports      bool  // open (and fully read) / close an export of a retained version: pins the version
 }
 
 func countKind(hist []Op, k OpKind) int {
@@ -63,6 +65,9 @@ func (a Alpha) Ops(w *World, s *Spec) []Op {
 	}
 	if a.Rollback {
 		ops = append(ops, Op{Kind: OpRollback})
+	}
+	if a.ReadAll && w.Cfg.Cache > 0 {
+		ops = append(ops, Op{Kind: OpRead, Arg: 12})
 	}
 	if a.Reads && w.NReads < s.MaxReads {
 		for arg := 0; arg < nReadCalls; arg++ {
@@ -114,6 +119,20 @@ func (a Alpha) Ops(w *World, s *Spec) []Op {
 	if a.LVFO && m.Latest > 0 {
 		for v := int64(1); v <= m.Latest+1; v++ {
 			ops = append(ops, Op{Kind: OpLVFO, Ver: v})
+		}
+	}
+	if a.Exports {
+		open := 0
+		for v, c := range m.Pins {
+			if c > 0 {
+				open++
+				ops = append(ops, Op{Kind: OpExportClose, Ver: v})
+			}
+		}
+		if open == 0 {
+			for _, v := range m.Versions() {
+				ops = append(ops, Op{Kind: OpExportOpen, Ver: v})
+			}
 		}
 	}
 	if a.Import {
